@@ -76,3 +76,36 @@ order_inst!(c10_call_order_111, true, true, true);
 order_inst!(c10_call_order_101, true, false, true);
 order_inst!(c10_call_order_011, false, true, true);
 order_inst!(c10_call_order_000, false, false, false);
+
+// one hook: runs iff it lists the event's type; a failing exit aborts unless allow_failure
+fn call_one<const T0: bool>() {
+    let af0: bool = kani::any();
+    let hooks = vec![mk_hook("a", T0, af0)];
+    let data = mk_data();
+    let r = block_on(call(&Lg, &hooks, &data, HookType::PostOperation));
+    let s = proc_st();
+    assert!(!s.overlap && s.alive == 0, "C10: a hook not waited for");
+    if T0 {
+        assert!(s.spawned == 1 && s.prog0[0] == b'a', "C10: the hook listing the event's type did not run exactly once");
+        assert!(r.is_err() == (s.exit[0] != 0 && !af0), "C10: a non-zero exit / signal must abort the operation unless allow_failure is set");
+    } else {
+        assert!(s.spawned == 0 && r.is_ok(), "C10: a hook that does not list the event's type must not run");
+    }
+    core::mem::forget(r);
+    core::mem::forget(hooks);
+    core::mem::forget(data);
+}
+#[kani::proof]
+#[kani::stub(std::hash::RandomState::new, rs_stub)]
+#[kani::stub(alloc::fmt::format, crate::verif_env::fmt_stub)]
+#[kani::unwind(2)]
+fn c10_call_one_listed() {
+    call_one::<true>();
+}
+#[kani::proof]
+#[kani::stub(std::hash::RandomState::new, rs_stub)]
+#[kani::stub(alloc::fmt::format, crate::verif_env::fmt_stub)]
+#[kani::unwind(2)]
+fn c10_call_one_not_listed() {
+    call_one::<false>();
+}
